@@ -50,19 +50,27 @@ def _net(vdl):
     pp.create_shunt(net, b1, 0.3, 0.02, vn_kv=21., step=2)
     pp.create_ward(net, b1, 0.1, 0.05, 0.02, 0.01)
     pp.create_xward(net, b2, 0.1, 0.05, 0.02, 0.01, 0.1, 0.2, 1.0)
-    pp.runpp(net, numba=False, voltage_depend_loads=vdl, lightsim2grid=False)
+    if isinstance(vdl, tuple):
+        # step-dependent shunts (values from net.shunt_characteristic_table): one in service, one out of service
+        net["shunt_characteristic_table"] = pd.DataFrame({"id_characteristic": [0, 0, 1, 1], "step": [1, 2, 1, 2],
+                                                          "q_mvar": [0.1, 0.25, 0.3, 0.5], "p_mw": [0.01, 0.02, 0.03, 0.04]})
+        pp.create_shunt(net, b2, 0.3, 0.02, step=2, max_step=2)
+        pp.create_shunt(net, b1, 0.3, 0.02, step=1, max_step=2, in_service=False)
+        net.shunt["step_dependency_table"] = [False, True, True]
+        net.shunt["id_characteristic_table"] = pd.array([pd.NA, 0, 1], dtype="Int64")
+    pp.runpp(net, numba=False, voltage_depend_loads=vdl[0] if isinstance(vdl, tuple) else vdl, lightsim2grid=False)
     _NET[vdl] = net
     return net
 
 
-def make_demand(vdl):
+def make_demand(vdl, tabulated=False, dc=False):
     def fn(ctx):
         bbus = ctx.load("pandapower.build_bus")
         mS = ctx.load("pandapower.pypower.makeSbus")
         mY = ctx.load("pandapower.pypower.makeYbus")
         rb = ctx.load("pandapower.results_bus")
         from pandapower.pypower.idx_bus import VM, GS, BS, PD, QD
-        net = copy.deepcopy(_net(vdl))
+        net = copy.deepcopy(_net((vdl, "tab") if tabulated else vdl))
         nl = len(net.load)
         for r in range(nl):
             pass
@@ -85,12 +93,19 @@ def make_demand(vdl):
         setcol(ctx, net.sgen, "scaling", [ctx.var("sgen_s", 0.1, 2.)])
         setcol(ctx, net.storage, "p_mw", [ctx.var("sto_p", -10., 10.)])
         setcol(ctx, net.storage, "q_mvar", [ctx.var("sto_q", -10., 10.)])
-        setcol(ctx, net.shunt, "p_mw", [ctx.var("sh_p", 0., 5.)])
-        setcol(ctx, net.shunt, "q_mvar", [ctx.var("sh_q", -5., 5.)])
-        setcol(ctx, net.shunt, "vn_kv", [ctx.var("sh_vn", 15., 25.)])
+        nsh = len(net.shunt)
+        setcol(ctx, net.shunt, "p_mw", [ctx.var(f"sh{r}_p", 0., 5.) for r in range(nsh)])
+        setcol(ctx, net.shunt, "q_mvar", [ctx.var(f"sh{r}_q", -5., 5.) for r in range(nsh)])
+        setcol(ctx, net.shunt, "vn_kv", [ctx.var(f"sh{r}_vn", 15., 25.) for r in range(nsh)])
+        if tabulated:
+            tab = net.shunt_characteristic_table
+            setcol(ctx, tab, "p_mw", [ctx.var(f"tab_p_id{int(i)}_s{int(st)}", 0., 5.) for i, st in zip(tab.id_characteristic, tab.step)])
+            setcol(ctx, tab, "q_mvar", [ctx.var(f"tab_q_id{int(i)}_s{int(st)}", -5., 5.) for i, st in zip(tab.id_characteristic, tab.step)])
         for tab, pre in (("ward", "w"), ("xward", "xw")):
             for col in ("ps_mw", "qs_mvar", "pz_mw", "qz_mvar"):
                 setcol(ctx, net[tab], col, [ctx.var(f"{pre}_{col}", -5., 5.)])
+        if dc:
+            net._options["ac"] = False          # result writers of a DC power flow; the VM column of the ppc then only holds set points
         ppc = net._ppc
         ppc["bus"] = ctx.obj(ppc["bus"])
         ppc["branch"] = ctx.obj(ppc["branch"].real)
@@ -118,16 +133,22 @@ def make_demand(vdl):
         # consumption of the elements at each ppc bus according to the result tables
         for b in range(nb):
             ysh = Y[b, b]
-            want_p = Sload[b].real + vm[b] * vm[b] * ysh.real * ppc["baseMVA"]
-            want_q = Sload[b].imag - vm[b] * vm[b] * ysh.imag * ppc["baseMVA"]
+            if dc:      # the DC solver balances PD + GS at |V| = 1 (dcpf: Pbus = -PD - GS), whatever set points VM holds
+                want_p = ppc["bus"][b, PD] + ppc["bus"][b, GS]
+                want_q = None
+            else:
+                want_p = Sload[b].real + vm[b] * vm[b] * ysh.real * ppc["baseMVA"]
+                want_q = Sload[b].imag - vm[b] * vm[b] * ysh.imag * ppc["baseMVA"]
             got_p, got_q = 0.0, 0.0
             for tab, sign in (("load", 1), ("sgen", -1), ("storage", 1), ("shunt", 1), ("ward", 1), ("xward", 1)):
                 for r in range(len(net[tab])):
                     if lookup[net[tab]["bus"].values[r]] == b:
                         got_p = got_p + sign * net["res_" + tab]["p_mw"].values[r]
-                        got_q = got_q + sign * net["res_" + tab]["q_mvar"].values[r]
+                        if not dc:
+                            got_q = got_q + sign * net["res_" + tab]["q_mvar"].values[r]
             ctx.eq(f"element_results_sum_equals_solved_demand/P/bus{b}", got_p, want_p)
-            ctx.eq(f"element_results_sum_equals_solved_demand/Q/bus{b}", got_q, want_q)
+            if not dc:
+                ctx.eq(f"element_results_sum_equals_solved_demand/Q/bus{b}", got_q, want_q)
         # res_bus p/q = net consumption at the (pandapower) bus: all fused buses report the sum of their own elements
         for pb in net.bus.index:
             got_p, got_q = 0.0, 0.0
@@ -135,9 +156,11 @@ def make_demand(vdl):
                 for r in range(len(net[tab])):
                     if net[tab]["bus"].values[r] == pb:
                         got_p = got_p + sign * net["res_" + tab]["p_mw"].values[r]
-                        got_q = got_q + sign * net["res_" + tab]["q_mvar"].values[r]
+                        if not dc:
+                            got_q = got_q + sign * net["res_" + tab]["q_mvar"].values[r]
             ctx.eq(f"bus_result_equals_element_sum/P/bus{pb}", bus_pq[ar[pb], 0], got_p)
-            ctx.eq(f"bus_result_equals_element_sum/Q/bus{pb}", bus_pq[ar[pb], 1], got_q)
+            if not dc:
+                ctx.eq(f"bus_result_equals_element_sum/Q/bus{pb}", bus_pq[ar[pb], 1], got_q)
     return fn
 
 
@@ -343,6 +366,10 @@ def instances(tier):
     for vdl in (True, False):
         out.append(Inst(f"demand_vdl{int(vdl)}", make_demand(vdl), nvars=48, samples=2, meta=dict(part="I1+I2", voltage_depend_loads=vdl),
                         raises=(ValueError,)))
+    out.append(Inst("demand_dc", make_demand(False, dc=True), nvars=48, samples=2, raises=(ValueError,),
+                    meta=dict(part="I1+I2", power_flow="DC", voltage_depend_loads=False)))
+    out.append(Inst("demand_step_dependent_shunts", make_demand(False, tabulated=True), nvars=64, samples=2, raises=(ValueError,),
+                    meta=dict(part="I1+I2", voltage_depend_loads=False, shunts="plain + tabulated in service + tabulated out of service")))
     return out
 
 
